@@ -57,7 +57,7 @@ func SetStepBudget(n int64) { stepBudget = n }
 
 // SetPreemptDensity: 0 = switches at operation boundaries only; 1 = a
 // pre-emption point is planted in about a quarter of the stretches; 2 = in
-// every stretch.
+// every stretch; 3 = in every stretch and at most 89 yields away.
 //
 //go:norace
 func SetPreemptDensity(d int) { preemptDensity = d }
@@ -118,7 +118,11 @@ func drawGap(site uint32) {
 			return
 		}
 	}
-	g := Choose(SSched, site, len(gapTable)+1)
+	n := len(gapTable)
+	if preemptDensity >= 3 {
+		n = 11 // short stretches only (<= 89 yields): many switches inside every operation
+	}
+	g := Choose(SSched, site, n+1)
 	if g > 0 {
 		gap = gapTable[g-1]
 	}
